@@ -5,7 +5,7 @@ iterations, suspend + signal) x crash-free delivery schedule, event store in the
 EVERY prefix length of the workflow's event log and EVERY snapshot position (exhaustive per run).
 Oracle: (1) rebuild_workflow_state() reports the store's status for the workflow and for every stage / task
 whose last durable status change was written by the regular start / complete / fail / skip / cancel steps
-(entities force-marked by a jump or an operator restart, and tasks swept by CancelStage, are outside the log;
+(entities force-marked by a jump or an operator restart, and never-started tasks swept by CancelStage, are outside the log;
 entities absent from the replay count as NOT_STARTED); (2) rebuild(as_of = s) equals an independent fold of
 exactly the events with sequence <= s (reference fold written from the documented event semantics);
 (3) with a snapshot saved at position p (state = rebuild as of p), rebuild() and rebuild(as_of = s >= p)
@@ -37,6 +37,7 @@ def reference_fold(rows: list[tuple[Any, ...]]) -> dict[str, Any]:
     wf: str | None = None
     stages: dict[str, str] = {}
     tasks_: dict[str, str] = {}
+    task_stage: dict[str, str] = {}
     for et, ent, eid, data in rows:
         d = json.loads(data) if data else {}
         if ent == "workflow":
@@ -63,9 +64,14 @@ def reference_fold(rows: list[tuple[Any, ...]]) -> dict[str, Any]:
                 stages[eid] = "SKIPPED"
             elif et == "stage.canceled":
                 stages[eid] = "CANCELED"
+                for tid, sid in task_stage.items():  # CancelStage cancels the stage's running tasks with this one event
+                    if sid == eid and tasks_.get(tid) == "RUNNING":
+                        tasks_[tid] = "CANCELED"
             else:
                 stages.setdefault(eid, None)  # type: ignore[arg-type]
         elif ent == "task":
+            if d.get("stage_id") and eid not in task_stage:
+                task_stage[eid] = d["stage_id"]
             if et == "task.started":
                 tasks_[eid] = "RUNNING"
             elif et == "task.completed":
@@ -102,8 +108,11 @@ def judge(c: Campaign, spec: dict[str, Any], run: Run, desc: Any, extra=()) -> N
     # ---- (1) replay vs store ----
     audit = w.audit()
     last_writer: dict[tuple[str, str], tuple[str, str]] = {}
+    last_old: dict[tuple[str, str], tuple[str, str]] = {}  # (status before the last change, writer of the change before that)
     for _q, _step, writer, kind, ident, old, new in audit:
         if old is not None and old != new:
+            prev = last_writer.get((kind, ident))
+            last_old[(kind, ident)] = (old, prev[0] if prev else "")
             last_writer[(kind, ident)] = (writer, new)
     store_wf = w.scalar("SELECT status FROM pipeline_executions WHERE id = ?", (wf_id,))
     lw = last_writer.get(("workflow", wf_id))
@@ -120,6 +129,12 @@ def judge(c: Campaign, spec: dict[str, Any], run: Run, desc: Any, extra=()) -> N
             c.violation(f"replay-vs-store:stage:{lw[0]}", case, f"stage {sid}: replay {rep}, store {status} (last written by {lw[0]})")
     for tid, status in w.rows("SELECT id, status FROM task_executions"):
         lw = last_writer.get(("task", tid))
+        if lw and lw[0] == "CancelStage" and last_old.get(("task", tid)) == ("RUNNING", "StartTask"):
+            # a task that went through the regular start step (the log knows it) and was then canceled with its stage
+            compared += 1
+            if got["tasks"].get(tid) != status:
+                c.violation("replay-vs-store:task:CancelStage", case, f"task {tid}: replay {got['tasks'].get(tid)}, store {status} (started, then canceled with its stage by CancelStage)")
+            continue
         if not lw or lw[0] not in TASK_WRITERS or lw[1] == "SKIPPED":
             continue
         compared += 1
